@@ -693,6 +693,45 @@ example : (hRegister hHist).deps 10 = [11, 1] ∧ (hRegister hHist).deps 11 = [2
 example : hWellFormed 0 hHist = true ∧ famLeaves (hRegister hHist) 5 10 = [2, 1] := by decide
 example : Path (hRegister hHist) 10 2 := .step 10 11 2 (by decide) (by decide) (.direct 11 2 (by decide) (by decide))
 
+/-! ### handler lists of any length -/
+
+/-- the handler history of a (top spec, context) is a list of any length; EVERY implementation in it that has
+a later one after it — the first, the second, …, in particular the one that was the latest before the newest
+registration — is told to ignore the context (positions, so repeated entries are covered too) -/
+theorem all_but_last_ignored (h : HHistory) (t : ClassId) (n : Name) (c v : Comp) (pre post : List Comp)
+    (hs : (hRegister h).handlers t n c = pre ++ v :: post) (hpost : post ≠ []) :
+    c ∈ (hWorld env (hRegister h)).ignore v ∧
+    ∀ (inG : Comp → Bool) (ss : Bool) (d : Decl) (i : Inst), present i c = true →
+      process (hWorld env (hRegister h)) ss v d i = .skipped .skip [] ∧
+      fires (hWorld env (hRegister h)) inG v d i = false :=
+  hier_earlier_ignored env h t n c v (by rw [hs]; exact mem_dropLast_of_split pre post v hpost)
+
+/-- the same for the flat reading: the list is `implsFor h n c` -/
+theorem all_but_last_ignored_flat (h : History) (n : Name) (c v : Comp) (pre post : List Comp)
+    (hreg : (root.registry n).isSome = true) (hs : implsFor h n c = pre ++ v :: post) (hpost : post ≠ []) :
+    c ∈ (world root env (register root h)).ignore v :=
+  (earlier_ignored root env h n c hreg v (by rw [hs]; exact mem_dropLast_of_split pre post v hpost)).1
+
+/-- one registration step: wiring a new implementation declared for `c` tells every implementation already in
+the table of `c` — the previous latest included, not only the first — to ignore `c`, and nothing is ever
+removed from an ignore list -/
+theorem previous_latest_ignored (r : HReg) (b : ClassId) (ps : List ClassId) (n : Name) (v pt : Comp)
+    (ctxs : List Comp) (t : ClassId) (hb : r.registry b n = some pt) (ht : handlerRoot r (b :: ps) n = some t)
+    (c u : Comp) (hc : c ∈ ctxs) (hu : u ∈ r.handlers t n c) :
+    c ∈ (hAttach (b :: ps) n v ctxs r).ignore u ∧
+    ∀ x w, x ∈ r.ignore w → x ∈ (hAttach (b :: ps) n v ctxs r).ignore w := by
+  unfold hAttach
+  simp only [hb, ht]
+  exact ⟨hfoldCtx_ignore t n v _ (dedup_nodup _) _ c u ((dedup_mem _ _).mpr hc) hu,
+    fun x w hx => hfoldCtx_ignore_mono t n v _ _ x w hx⟩
+
+private def sortDedupIgnore (l : List Comp) : List Comp := dedup l
+private def cHist : HHistory :=
+  [⟨[], [⟨0, 10, true, []⟩, ⟨1, 11, true, []⟩]⟩, ⟨[0], [⟨0, 5, false, [20]⟩, ⟨1, 1, false, [20]⟩]⟩,
+   ⟨[0], [⟨0, 6, false, [21]⟩, ⟨1, 2, false, [20, 21]⟩]⟩, ⟨[0], [⟨1, 3, false, [20]⟩]⟩, ⟨[0], [⟨0, 7, false, [20]⟩, ⟨1, 4, false, [20]⟩]⟩]
+example : (hRegister cHist).handlers 0 1 20 = [1, 2, 3, 4] ∧ (hRegister cHist).ignore 3 = [20] ∧
+    (sortDedupIgnore ((hRegister cHist).ignore 2)) = [20] ∧ (hRegister cHist).ignore 4 = [] := by decide
+
 /-! ### derived execution contexts
 
 A context class derived from another one (21 := `class JBossCtx(HostCtx)`, 20 := `HostCtx`) is a key of its own:
